@@ -268,9 +268,8 @@ func compareHeader(h *rtp.Header, w *ref.Wire) string {
 		if !bytes.Equal(got, e.Val) {
 			return fmt.Sprintf("extension id %d value %s, want %s", e.ID, hx(got), hx(e.Val))
 		}
-		if got == nil {
-			return fmt.Sprintf("extension id %d reported absent (nil)", e.ID)
-		}
+		// presence is what GetExtensionIDs says (checked above); for an empty value nil and
+		// empty are not distinguished
 	}
 	return ""
 }
